@@ -60,6 +60,7 @@ type Kernel struct {
 	muHeld     map[string]string // simhook.Mutex instances (handle.mu) held right now -> holder
 	muFree     map[string]chan struct{}
 	engFree    chan struct{}  // teardown: closed when Engine.mu is released
+	extra      int            // evaluations granted beyond GateBudget (ExtendBudget)
 	drainCalls map[uint64]int // teardown: hook points passed per goroutine
 	Ambiguous  bool
 }
@@ -222,7 +223,7 @@ func (k *Kernel) Park(point string) {
 	// the points in alwaysPark are never pass-through (determinism: see DESIGN.md 2.1).
 	if point == GatePoint {
 		k.GateN++
-		if k.GateN > GateBudget {
+		if k.GateN > GateBudget+k.extra {
 			tk.credit = 0 // over budget: hand control back; the session ends as inconclusive
 		}
 		if tk.credit > 0 {
@@ -315,6 +316,14 @@ func (k *Kernel) Parked() []*Task {
 		return ps[i].Name < ps[j].Name
 	})
 	return ps
+}
+
+// ExtendBudget grants n more evaluations (used by a settle phase that must give a search the time to
+// notice a halt, after the run's own budget is gone).
+func (k *Kernel) ExtendBudget(n int) {
+	k.mu.Lock()
+	k.extra += n
+	k.mu.Unlock()
 }
 
 // RoleCount: how many tasks of the role have been named so far (the ordinal of the newest).
@@ -419,7 +428,7 @@ func (k *Kernel) Event(s string) {
 func (k *Kernel) OverBudget() bool {
 	k.mu.Lock()
 	defer k.mu.Unlock()
-	return k.GateN > GateBudget || k.Ambiguous
+	return k.GateN > GateBudget+k.extra || k.Ambiguous
 }
 
 func (k *Kernel) Work() int {
